@@ -305,7 +305,11 @@ func (q *queue) NotEmpty(consumeHead int64, checkClosed func() bool) bool {
 
 // Signal signals waiting consumers.
 func (q *queue) Signal() {
+	// NOTE: need lock, if not, a consumer which checked the condition(under lock) and is going to wait
+	// misses the signal and waits until next message is written.
+	q.rwMutex.RLock()
 	q.notEmpty.Broadcast()
+	q.rwMutex.RUnlock()
 }
 
 // Close closes the queue.
